@@ -247,8 +247,29 @@ func runC04(tier string) int {
 		r.Add("file_level_programs", 1)
 		checkClosure(r, fp)
 	}
+	// the C06 (hoisting) and C08 (mapscripts) families, re-enumerated at a reduced bound
+	c04Tap = func(fp *fileProgram) {
+		r.Add("programs", 1)
+		r.Add("hoisting_and_mapscripts_programs", 1)
+		checkClosure(r, fp)
+	}
+	slots, ents := 3, 2
+	if tier == "thorough" {
+		slots, ents = 4, 3
+	}
+	if !r.Expired() {
+		c06Enumerate(r, slots, []int{0, 5}, func(data []datum, dist []int, rot, clash int) { c06Eval(r, data, dist, rot, clash) })
+	}
+	if !r.Expired() {
+		c08Enumerate(r, 2, ents, func(entries []c08Entry, scope string, opt bool) {
+			if opt {
+				c08Eval(r, entries, scope, opt, map[string]string{"PV": "SEL"})
+			}
+		})
+	}
+	c04Tap = nil
 	r.Assume("user-chosen names never imitate generated names (<script>_<n>, <script>_Text_<n>, <script>_Movement_<n>, <map>_<TYPE>...): generator guarantee",
 		"static run-off clause takes every branch as feasible and every label as a possible entry")
 	return r.Finish(r.Get("evaluations"), r.Get("nontrivial"),
-		"outputs of the C01 families and C03 switch programs (re-enumerated), a family with labels in dead code (after end/return/break/goto/infinite loop, in a body shared with default) and multi-statement files; each case = one emitted file checked for: labels defined once, references resolved, user labels present once, no fall-through across a block boundary from any label, plus dynamic run-off exploration; non-trivial = >= 3 labels defined and a user label or hoisted datum present")
+		"outputs of the C01 families and C03 switch programs (re-enumerated), a family with labels in dead code (after end/return/break/goto/infinite loop, in a body shared with default), multi-statement files, and the C06 hoisting and C08 mapscripts families at a reduced bound; each case = one emitted file checked for: labels defined once, references resolved, user labels present once, no fall-through across a block boundary from any label, plus dynamic run-off exploration; non-trivial = >= 3 labels defined and a user label or hoisted datum present")
 }
